@@ -68,7 +68,12 @@ def r2_cancellation(chk: Check):
     # frame condition: only fields of self are written
     bad = [src(t) for t, v, s in attr_stores(f.node) if dotted(t.value) != "self"]
     chk.require(not bad, chk.fkey(f, "writes only self"), f"dependencychanged writes {bad}: cancelling a job must not touch any other job (siblings keep running)", chk.loc(f.module, f.node))
-    calls = [src(c) for c in fn_calls(f.node) if not src(c).startswith(("logger.", "value(", "self._readyEvent.set", "self.state."))]
+    nested = {ff.node.name for ff in tree.funcs.values() if ff.parent is f}
+    for ff in tree.funcs.values():
+        if ff.parent is f:
+            inner = [src(c) for c in fn_calls(ff.node)] + [src(t) for t, v, s_ in attr_stores(ff.node)]
+            chk.require(not inner, chk.fkey(f, f"nested helper {ff.node.name} is pure"), f"nested helper `{ff.node.name}` of dependencychanged has effects {inner}", chk.loc(f.module, ff.node))
+    calls = [src(c) for c in fn_calls(f.node) if not src(c).startswith(("logger.", "self._readyEvent.set", "self.state.")) and not (isinstance(c.func, ast.Name) and c.func.id in nested)]
     chk.require(not calls, chk.fkey(f, "no other effects"), f"dependencychanged calls {calls}", chk.loc(f.module, f.node))
 
 
